@@ -1,4 +1,6 @@
 import QeepProps.C10
+import QeepProofs.FC
+import QeepProofs.Vals
 /-!
 # C16 — the FC layer (validation, liveness of the parameters, footprint)
 
@@ -41,6 +43,104 @@ theorem fc_weights_live (c c' : FC) (xs : List (Option Nat)) (H : Heap α) (hw :
 
 /-- **footprint**: a forward pass modifies no existing tensor (parameters and input included) -/
 theorem fc_only_allocates (c : FC) (xs : List (Option Nat)) : Frame (fcForward (α := α) c xs) := frame_fcForward c xs
+
+end C16
+end Qeep
+
+namespace Qeep
+namespace C16
+variable {α : Type} [Scalar α]
+
+/-- the heap-level forward pass computes the value-level composition `fcV` of the current parameter and input values -/
+theorem fc_forward_val (w b x : Nat) (H H' : Heap α) (r : Nat) (hw : w < H.size) (hb : b < H.size) (hx : x < H.size)
+    (h : fcForward ⟨some w, some b⟩ [some x] H = .ok (r, H')) :
+    fcV (H.val w) (H.val b) (H.val x) = .ok (H'.val r) ∧ Extends H H' := by
+  unfold fcForward at h
+  obtain ⟨x0, H0, g0, k1⟩ := bind_ok h
+  obtain ⟨e0, e0'⟩ := liftOut_ok g0
+  have hx0 : x0 = x := by simp [oneInput] at e0; exact e0.symm
+  rw [e0', hx0] at k1
+  obtain ⟨H1, H1', g1, k2⟩ := bind_ok k1
+  obtain ⟨e1, e1'⟩ := getHeap_ok g1
+  rw [e1, e1'] at k2
+  by_cases hr : (H.val x).dims.length ≠ 2
+  · rw [if_pos hr] at k2
+    obtain ⟨e, _⟩ := liftOut_ok k2; cases e
+  · rw [if_neg hr] at k2
+    simp only [] at k2
+    obtain ⟨w1, Ha, ga, k3⟩ := bind_ok k2
+    obtain ⟨x1, Hb, gb, k4⟩ := bind_ok k3
+    obtain ⟨y, Hc, gc, k5⟩ := bind_ok k4
+    obtain ⟨s, Hd, gd, k6⟩ := bind_ok k5
+    obtain ⟨va, ra, xa⟩ := hUnSqueeze_val ga
+    obtain ⟨vb, rb, xb⟩ := hUnSqueeze_val gb
+    have w1lt : w1 < Ha.size := by
+      unfold hUnSqueeze at ga
+      obtain ⟨Hx, Hx', gx, kx⟩ := bind_ok ga
+      obtain ⟨ex, ex'⟩ := getHeap_ok gx
+      rw [ex, ex'] at kx
+      exact hOp1_size kx
+    have x1lt : x1 < Hb.size := by
+      unfold hUnSqueeze at gb
+      obtain ⟨Hx, Hx', gx, kx⟩ := bind_ok gb
+      obtain ⟨ex, ex'⟩ := getHeap_ok gx
+      rw [ex, ex'] at kx
+      exact hOp1_size kx
+    obtain ⟨vc, _, ylt, xc⟩ := hMatMul_val (Nat.lt_of_lt_of_le w1lt xb.1) x1lt gc
+    obtain ⟨vd, rd, xd⟩ := hAlong_val gd
+    have slt : s < Hd.size := by
+      unfold hAlong at gd
+      obtain ⟨Hx, Hx', gx, kx⟩ := bind_ok gd
+      obtain ⟨ex, ex'⟩ := getHeap_ok gx
+      rw [ex, ex'] at kx
+      exact hOp1_size kx
+    have hbd : b < Hd.size := Nat.lt_of_lt_of_le hb (((xa.trans xb).trans xc).trans xd).1
+    obtain ⟨ve, _, _, xe⟩ := hArith_val slt hbd k6
+    refine ⟨?_, (((xa.trans xb).trans xc).trans xd).trans xe⟩
+    unfold fcV
+    simp only [bind, Out.bind]
+    rw [va]
+    simp only []
+    have hxa : Ha.val x = H.val x := xa.val hx
+    rw [← hxa, vb]
+    simp only []
+    have hw1b : Hb.val w1 = Ha.val w1 := xb.val w1lt
+    rw [← hw1b, vc]
+    simp only []
+    rw [vd]
+    simp only []
+    have hbv : Hd.val b = H.val b := (((xa.trans xb).trans xc).trans xd).val hb
+    rw [← hbv, ve]
+
+/-- **FC is an affine map per output unit** — for every batch size `N`, feature count `D`, output count `O` (≥ 1) and
+    all parameter / input values: whenever `Forward` returns a tensor it has shape `[N, O]` and
+    `y[b][o] = (Σ_d (0 + W[o]·x[b][d])) + B[o]` (folds in execution order; over `ℝ`: `W[o]·Σ_d x[b][d] + B[o]`);
+    row `b` depends on input row `b` only, and existing tensors are untouched. -/
+theorem fc_forward (N D O : Nat) (w b x : Nat) (H H' : Heap α) (r : Nat) (hw : w < H.size) (hb : b < H.size) (hx : x < H.size)
+    (hN : 0 < N) (hD : 0 < D) (hO : 0 < O)
+    (dw : (H.val w).dims = [O]) (db : (H.val b).dims = [O]) (dx : (H.val x).dims = [N, D])
+    (ww : (H.val w).WF) (wb : (H.val b).WF) (wx : (H.val x).WF)
+    (Wf Bf : Nat → α) (Xf : Nat → Nat → α)
+    (hW : ∀ o, o < O → (H.val w).data[o]? = some (Wf o)) (hB : ∀ o, o < O → (H.val b).data[o]? = some (Bf o))
+    (hX : ∀ i d, i < N → d < D → (H.val x).data[i * D + d]? = some (Xf i d))
+    (h : fcForward ⟨some w, some b⟩ [some x] H = .ok (r, H')) :
+    (H'.val r).dims = [N, O] ∧ Extends H H' ∧
+    ∀ i o, i < N → o < O →
+      (H'.val r).at? [i, o] =
+        some (Scalar.add
+          (((List.range D).map (fun d => Scalar.add Scalar.zero (Scalar.mul (Wf o) (Xf i d)))).foldl Scalar.add Scalar.zero)
+          (Bf o)) := by
+  obtain ⟨hv, hext⟩ := fc_forward_val w b x H H' r hw hb hx h
+  have e1 : H.val w = ⟨[O], (H.val w).data⟩ := by rw [← dw]
+  have e2 : H.val b = ⟨[O], (H.val b).data⟩ := by rw [← db]
+  have e3 : H.val x = ⟨[N, D], (H.val x).data⟩ := by rw [← dx]
+  obtain ⟨data, s1, s2, s3⟩ := fcV_spec N D O (H.val w).data (H.val b).data (H.val x).data hN hD hO
+    (by rw [ww.1, dw]; simp [prod]) (by rw [wb.1, db]; simp [prod]) (by rw [wx.1, dx]; simp [prod])
+    Wf Bf Xf hW hB hX
+  rw [← e1, ← e2, ← e3, hv] at s1
+  injection s1 with s1
+  rw [s1]
+  exact ⟨rfl, hext, s3⟩
 
 end C16
 end Qeep
